@@ -306,7 +306,23 @@ def service_case(rnd, host_active):
             problems.append(f"an event with two linked reports was triggered once; the host received {pr.reports!r}, expected {want_reports!r}")
         want += [(3, [(10, 124), (20, 77)]), (3, [(20, 77)])]
         # the host clears everything (S2F37 disable all, S2F33 delete all) and subscribes again: the old links are gone, the event is reported once
-        call(h.clear_collection_events)
+        # ... and while the host is inside clear_collection_events(), before its S2F37 has gone out, the equipment triggers the event once
+        # more: it is still enabled there, so it reaches the host like any other (forced: the host's disable_ceids is held back)
+        real_disable = h.disable_ceids
+
+        def racing_disable():
+            e.trigger_collection_events([3])
+            until(lambda: len(pr.events) >= 2, 2.0)
+            return real_disable()
+
+        h.disable_ceids = racing_disable
+        del pr.events[:]
+        try:
+            call(h.clear_collection_events)
+        finally:
+            del h.disable_ceids
+        if pr.events != [(3, [(10, 124), (20, 77)]), (3, [(20, 77)])]:
+            problems.append(f"an event triggered while the host was inside clear_collection_events() (still enabled at the equipment) did not reach the host once: {pr.events!r}")
         del pr.events[:]
         e.trigger_collection_events([3])
         time.sleep(0.3)
